@@ -385,6 +385,13 @@ const H4: u32 = 0xC3D2E1F0;
 const H: [u32; STATE_LEN] = [H0, H1, H2, H3, H4];
 
 impl Context {
+    /// verification hook: preset the count of bytes processed so far (must be used on a
+    /// context whose buffer is empty, with a multiple of the block size)
+    #[cfg(cryptoxide_verif)]
+    pub fn verif_set_processed_bytes(&mut self, n: u64) {
+        self.processed_bytes = n;
+    }
+
     /// Construct a new default SHA1 context
     pub const fn new() -> Self {
         Self {
